@@ -603,7 +603,7 @@ PROPS["C20"] = {
 
 PROPS["C02"] = {
     "title": "Curve-curve intersection is sound and complete in either argument order",
-    "gen_modules": ["Consts", "Basis", "Section", "Bounds", "CurveBounds", "Lines", "FatLine", "CurveClip", "Overlaps"],
+    "gen_modules": ["Consts", "Basis", "Section", "Bounds", "CurveBounds", "Lines", "FatLine", "CurveClip", "CurveLine", "Overlaps", "LinearFallback"],
     "props_modules": ["C02", "C02Overlap"],
     "corr_n": (20000, 200000),
     "search_n": (3000, 60000),
@@ -631,7 +631,10 @@ PROPS["C02"] = {
                   "solver whose curve point is within 0.05 of the point asked for, or exactly 0 / 1 for a point within 1e-9 of an end (repair F23); overlapping_region_origin - each reported pair of parameters is "
                   "an end point of one curve located on the other by t_for_point, and neither parameter pair is a single point; overlap_answer_points_close - hence the two points of each pair the shortcut reports "
                   "are within 0.05 of each other; overlapping_region_eq (choose first pair, choose second pair, common tail). Both generated functions reproduce the real ones bit for bit (ops tfp, ovl). "
-                  "NOT proved: that the answers of the linear fall-back are right and that the overlap shortcut fires only for genuinely overlapping curves (its control-point comparison; external cubic solver; in practice every transversal crossing is reported through the fall-back - the loop's "
+                  "(9) THE LINEAR FALL-BACK (intersections_with_linear_section generated whole, Gen/LinearFallback; the real private function is reached through hook H6 and reproduced bit for bit, op lin): "
+                  "linear_fallback_sound - for ANY root solvers every reported (linear_t, curved_t) belongs to a hit of curve_intersects_ray(curved section, ray through the ends of the linear section) and the linear "
+                  "section's point at linear_t is within max(accuracy, CLOSE_DISTANCE) of that hit's position, or it is the short-section rescue (linear_t = 0.5, section ends within 0.1, hit within 0.05 of the mid point). "
+                  "NOT proved: completeness of the linear fall-back (that the external solver returns every root) and that the overlap shortcut fires only for genuinely overlapping curves (its control-point comparison; external cubic solver; in practice every transversal crossing is reported through the fall-back - the loop's "
                   "own exit is taken in 20 of 200 000 correspondence cases, all of them overlapping pieces of one curve), termination, and therefore completeness and argument-order symmetry as such: these are decided on the real code by the search "
                   "(hull-subdivision + Newton oracle, both orders, accuracies 0.01 and 0.001), which also follows every required crossing through a shadow of the recursion and reports the named step that lost it.",
     "level_note": "Exact arithmetic (binary64 rounding bounded by the bit-exact mirror only). Repaired defect (bf6845a, hooks/fix_overlap_shortcut.diff): the overlap shortcut used to run in every recursive "
